@@ -26,10 +26,17 @@ from .refmodel import TURN_RIGHT
 
 DETERMINISTIC = ['fully_transparent', 'partially_occluded', 'raytracing']
 ALL = DETERMINISTIC + ['stochastic_raytracing']
+PARAMETRISED = ['raytracing@rel0.5', 'raytracing@abs2', 'raytracing@rel1.0']
 
 
 def build_obs(name, area, via_visibility=False):
     """observation function through the real factory"""
+    if '@' in name:  # parametrised visibility, e.g. raytracing@rel0.5 / raytracing@abs2
+        base, par = name.split('@')
+        kw = ({'absolute_counts': False, 'threshold': float(par[3:])} if par.startswith('rel')
+              else {'absolute_counts': True, 'threshold': int(par[3:])})
+        vis = visibility_fs.factory(base, **kw)
+        return observation_fs.factory('from_visibility', area=area, visibility_function=vis)
     if via_visibility:
         vis = visibility_fs.factory(name)
         return observation_fs.factory('from_visibility', area=area, visibility_function=vis)
